@@ -741,8 +741,8 @@ def run_H(ctx, clskey, labelled, rows_sym, depth, part, nparts):
         ctx.count("pruned:broken-root")        # a broken initial state is reported once, not once per operation
         return
     s0 = snap(obj0)
-    seen = {digest((clskey, s0))}
-    ctx.state(digest((clskey, s0)))
+    seen = {digest((clskey, s0, R.colmags(taxa0), True))}
+    ctx.state(digest((clskey, s0, R.colmags(taxa0), True)))
     frontier = collections.deque([((), s0, taxa0, True, b0, 0)])
     ctx.flag("labelled" if labelled else "unlabelled")
     while frontier:
@@ -763,7 +763,9 @@ def run_H(ctx, clskey, labelled, rows_sym, depth, part, nparts):
             rs, ntaxa = out["snap"], out["taxa"]
             if out["changed"]:
                 ctx.nontriv(digest((clskey, ps, ev)))
-            key = digest((clskey, rs))
+            # canonical state = every observable array of the real object + everything the oracle's judgement of
+            # future states depends on (tolerance magnitudes, freshness): merged states have identical futures
+            key = digest((clskey, rs, R.colmags(ntaxa), out["fresh"]))
             if key in seen:
                 continue
             seen.add(key)
